@@ -114,7 +114,7 @@ class FakeS3(httpx.AsyncBaseTransport):
         method = request.method
         if key is None:
             if path.rstrip('/') == prefix and method == 'GET':
-                return self._list(request, dict(q))
+                return self._list(request, dict(q), fault)
             return httpx.Response(400, content=b'<Error><Code>BadRequest</Code></Error>', request=request)
         if method == 'PUT':
             cl = request.headers.get('content-length')
@@ -143,7 +143,7 @@ class FakeS3(httpx.AsyncBaseTransport):
             return httpx.Response(204, request=request)
         return httpx.Response(405, request=request)
 
-    def _list(self, request, q):
+    def _list(self, request, q, fault=None):
         if q.get('list-type') != '2':
             return httpx.Response(400, content=b'<Error><Code>OnlyV2</Code></Error>', request=request)
         prefix = q.get('prefix', '')
@@ -166,7 +166,8 @@ class FakeS3(httpx.AsyncBaseTransport):
             parts.append(f'<NextContinuationToken>{escape(self._token_for(pagekeys[-1]))}</NextContinuationToken>')
         parts.append('</ListBucketResult>')
         data = ''.join(parts).encode('utf-8', 'surrogateescape')
-        return httpx.Response(200, headers={'content-type': 'application/xml'}, stream=_Body(data, self.resp_piece, None),
+        fa = fault.get('after') if fault and fault.get('at') == 'response-body' else None
+        return httpx.Response(200, headers={'content-type': 'application/xml'}, stream=_Body(data, self.resp_piece, fa),
                               request=request)
 
 
